@@ -10,7 +10,7 @@ import ast
 
 from . import alg
 from .alg import Poly, P, B, C, sym, sum_over, lt, eq, mk_fn, mk_ind, Facts
-from .interp import (Interp, Hooks, Arr, Obj, Unk, symarr, scalar, num, GenList, Pinned, LabelClash, unit_atom)
+from .interp import (Interp, Hooks, Arr, Obj, Unk, symarr, scalar, num, GenList, Pinned, LabelClash, unit_atom, init_obj)
 from .astutil import up
 from .loader import AnalysisError
 
@@ -117,7 +117,7 @@ def interpret_models_fit(repo, ndim, opaque_kernels=True, stop_at_sort=True, val
     fit = repo.func('models', 'Models.fit')
     hooks = FitHooks(ndim, opaque_kernels, stop_at_sort, valid, inline_source)
     I = Interp(repo, hooks)
-    models = Obj(repo.cls('models', 'Models'), {
+    models = init_obj(repo, repo.cls('models', 'Models'), {
         'names': symarr('names', (M,)),
         'logd': symarr('logd', (D,), unit=num(1)),
         'extended': [],
